@@ -46,7 +46,7 @@ func C05(c *Ctx) int {
 		ps = append(ps, p)
 	}
 	// a branch of the inclusive fork forks again (parallel block / task with two outgoing flows)
-	for _, inner := range []string{"and", "task", "taskfirstfalse"} {
+	for _, inner := range []string{"and", "task", "taskfirstfalse", "task2join"} {
 		for _, d := range []bool{true, false} {
 			ps = append(ps, gen.OrWithInnerFork(inner, d))
 		}
